@@ -145,7 +145,9 @@ struct StrTarget
             int64_t target = (int64_t)cap + (int64_t)(v % 4) - 2 - (int64_t)extra_reserve * (int64_t)((v / 4) % 2);
             int64_t n = target - (int64_t)len;
             if (n < 0) n = 0;
-            if (n > 64) n = 64;
+            // normally a short block; in the long-string configurations every other targeted block may be as long as it takes
+            // (an emptied string that kept a large buffer is grown past that buffer in one step)
+            if (n > 64) { if (maxlen >= 6000 && ((v >> 3) & 1) && n <= 400000) c.st.add("probe.str_long_targeted_block"); else n = 64; }
             c.st.add("probe.str_targeted_length");
             return (size_t)n;
         }
